@@ -260,6 +260,8 @@ def stage_faults(ctx: Ctx, progs):
             else:
                 nsucc += 1
                 diffs = reparse_diffs(root)
+                if diffs and 'fault' in desc:
+                    break   # an odd request (e.g. source text put to a primitive field) was accepted: not this property's subject; abandon the history
                 if diffs:
                     from props.C01 import classify
                     sig = classify(before[0], desc, diffs) if 'kind' in desc else f'accepted-invalid|{desc.get("fault")}'
